@@ -885,6 +885,12 @@ def rule_r8(ctx) -> List[R.Inst]:
     return insts
 
 
+def rule_dep(ctx):
+    """obligations inherited from shared code reached through the call graph (sa/props/deps.py)"""
+    from .deps import dep_insts
+    return dep_insts(ctx, "C01", ["reamber.osu.OsuMap.OsuMap.read", "reamber.osu.OsuMap.OsuMap.write"], skip_groups=())
+
+
 SPECS = [
     RuleSpec("C01.R1", rule_r1, 30, "A1", "metadata key table: reader and writer agree on key, field and inverse transform"),
     RuleSpec("C01.R2", rule_r2, 1, "A8", "metadata value is everything after the first ':'"),
@@ -894,6 +900,7 @@ SPECS = [
     RuleSpec("C01.R6", rule_r6, 6, "A8", "section markers, slice bounds and key-count order"),
     RuleSpec("C01.R7", rule_r7, 10, "A2", "every list is written and read; readers yield the declared columns"),
     RuleSpec("C01.R8", rule_r8, 2, "A7", "column <-> x are the floor bucket and its midpoint over one width (lemma: mutually inverse for keys < 256)"),
+    RuleSpec("C01.D", rule_dep, 1, "M0", "rules of the shared code (timing engine, list classes, stacker) that the operations of this property reach"),
 ]
 
 META = dict(
